@@ -8,6 +8,12 @@ class LawfulLen (F G : Type) [PtCodec G] [ScCodec F] : Prop where
   pt_len : ∀ P : G, (PtCodec.enc P).length = 32
   sc_len : ∀ s : F, (ScCodec.enc s).length = 32
 
+/-- the same laws, per codec (for statements that mention only one of the two types) -/
+class PtLen (G : Type) [PtCodec G] : Prop where
+  pt_len : ∀ P : G, (PtCodec.enc P).length = 32
+class ScLen (F : Type) [ScCodec F] : Prop where
+  sc_len : ∀ s : F, (ScCodec.enc s).length = 32
+
 theorem slice_here (a r : Bytes) (n : Nat) (h : a.length = n) : slice (a ++ r) 0 n = a := by
   simp [slice, ← h]
 
